@@ -583,8 +583,13 @@ func evExec(w *world, f []string) (res string, ok bool) {
 	if f[0] == "reset" {
 		w.deb.close()
 		w.deb = nil
+		w.evq.close()
+		w.evq = nil
 		if len(f) == 2 && f[1] == "evdb" {
 			return debExec(w, f), true
+		}
+		if len(f) == 2 && f[1] == "evq" {
+			return evqExec(w, f), true
 		}
 		if len(f) < 2 || (f[1] != "ev" && f[1] != "evc" && f[1] != "e2e") {
 			w.ev.close()
@@ -593,6 +598,8 @@ func evExec(w *world, f []string) (res string, ok bool) {
 		}
 	} else if strings.HasPrefix(f[0], "evdb") {
 		return debExec(w, f), true
+	} else if f[0] == "evq" || strings.HasPrefix(f[0], "evqfire") || strings.HasPrefix(f[0], "evqrun") || f[0] == "evqhandled" {
+		return evqExec(w, f), true
 	} else if !strings.HasPrefix(f[0], "ev") && !strings.HasPrefix(f[0], "e2e") {
 		return "", false
 	}
@@ -633,6 +640,7 @@ func evExec(w *world, f []string) (res string, ok bool) {
 			}
 			ne.sess = s
 			w.ev = ne
+			ne.installTokenMeta()
 			return "ok", true
 		}
 		if len(f) != 6 {
@@ -664,8 +672,12 @@ func evExec(w *world, f []string) (res string, ok bool) {
 		}
 		ne.sess = s
 		w.ev = ne
+		ne.installTokenMeta()
 		s.TakeRefreshRequested()
 		return ne.answer("ok "), true
+	case "evpart", "evks", "evtmeta", "evrouted", "evscache", "evschema":
+		a, _ := tokenMetaExec(e, f)
+		return a, true
 	case "evhost":
 		o, id, a, c, dc := atoi(f[1]), atoi(f[2]), atoi(f[3]), atoi(f[4]), atoi(f[5])
 		e.objs[o] = gocql.VerifEvHost(hid(id), evIP(a), f[6] == "l", evIP(c), evDC(dc))
@@ -832,6 +844,19 @@ func (g *evGen) emit(op, class string, nt bool) string {
 		g.dead = true
 	}
 	return a
+}
+
+// lastOpWord: the op word of the last step that changed the session (for the class of the observations after it)
+func (g *evGen) lastOpWord() string {
+	for i := len(g.cases) - 1; i >= 0; i-- {
+		w := strings.Fields(g.cases[i].op)[0]
+		switch w {
+		case "evtmeta", "evrouted", "evnotoffered", "evnostale", "evfollows", "evfollowsx", "evinpolicy", "evinpolicyx", "evpart", "evks", "evscache", "evschema":
+			continue
+		}
+		return w
+	}
+	return "reset"
 }
 
 func evScenario(r *vh.Rng, idx int) []evCase {
@@ -1025,6 +1050,9 @@ func (g *evGen) direct() {
 			g.emit(fmt.Sprintf("evadd %d", o), "evadd", true)
 		}
 	}
+	if strings.HasPrefix(pol, "ta") && !g.dead && r.Intn(10) < 7 {
+		g.emit("evpart", "evpart", true) // else the history starts without a partitioner (no token ring yet)
+	}
 	var addrs []int
 	for a := 2; a <= nAddr+1+nIDs; a++ {
 		addrs = append(addrs, a)
@@ -1072,6 +1100,8 @@ func (g *evGen) direct() {
 		if !g.dead && len(g.w.ev.tracked) > 0 && r.Intn(3) == 0 {
 			g.emit("evnotoffered", "evnotoffered/spec-backed", true)
 		}
+		g.tokenOps(pol, g.lastOpWord())
+		g.schemaOps(false)
 	}
 	if !g.dead {
 		g.emit("evnostale", "evnostale/spec-backed", true)
@@ -1230,9 +1260,16 @@ func (g *evGen) withControl() {
 					cls += "/removed-node"
 				case y < 44 && len(peers) > 0:
 					i := r.Intn(len(peers))
-					peers[i].addr, peers[i].rpc = nextAddr, nextAddr
+					if r.Intn(5) < 2 {
+						// only the node-to-node address changes, the client-facing address stays (fixed rpc_address, NAT,
+						// address translation): the connect address the pool and the policies know the node by is unchanged
+						peers[i].addr = nextAddr
+						cls += "/node-address-change-rpc-unchanged"
+					} else {
+						peers[i].addr, peers[i].rpc = nextAddr, nextAddr
+						cls += "/address-change"
+					}
 					nextAddr++
-					cls += "/address-change"
 				case y < 49 && len(peers) > 1:
 					// two nodes exchange their addresses
 					i := r.Intn(len(peers))
@@ -1332,5 +1369,7 @@ func (g *evGen) withControl() {
 		if !g.dead && len(g.w.ev.tracked) > 0 && r.Intn(3) == 0 {
 			g.emit("evnotoffered", "evnotoffered/spec-backed", true)
 		}
+		g.tokenOps(pol, g.lastOpWord())
+		g.schemaOps(true)
 	}
 }
